@@ -14,7 +14,7 @@ EXPLANATION = (
     "canonical URI prefix and URI-synonym set, every CURIE prefix known before is known after, each pair old->new with old "
     "known and new unused before (and not competed for by another pair) makes new canonical for old's record, and a "
     "remapping none of whose pairs is applicable returns the same records.")
-BOUNDS = dict(records="<= 3", prefix_synonyms="<= 1", remapping_pairs="<= 2 (3 records only with 1 pair)", strings="unbounded, full z3 alphabet")
+BOUNDS = dict(records="<= 3", prefix_synonyms="<= 1", remapping_pairs="<= 2 (3 records only with 1 pair), plus 3-pair chains k0->k1->k2->v over 3 records (thorough)", strings="unbounded, full z3 alphabet")
 OUTSIDE = ["remappings of 3 or more pairs", "two records with synonyms together with 2 pairs", "non-strict converters"]
 ASSUMPTIONS = ["pytrie contract stub", "pydantic BaseModel stub (model_copy deep-copies list fields)", "strict precondition",
                "remapping keys pairwise distinct (dict keys)"]
@@ -28,6 +28,8 @@ SHAPES = [
     ("remap", [[0, 0]] * 3, False, T, dict(params=dict(m=1), budget=1800, shard=6)),
     ("remap", [[1, 0], [0, 0]], False, T, dict(params=dict(m=1), budget=1800, shard=6)),
     ("remap", [[1, 1], [0, 1]], False, T, dict(params=dict(m=1), budget=2400, shard=7)),
+    # a three-leg chain k0 -> k1 -> k2 -> v (values are the next keys), which keeps a 3-pair remapping tractable
+    ("remap", [[1, 0], [1, 0], [0, 0]], False, T, dict(params=dict(m=3, chain=True), budget=3000, shard=12)),
 ]
 
 DOCUMENTED = ("DuplicateKeys", "DuplicateValues", "InconsistentMapping", "CycleDetected")
@@ -48,6 +50,8 @@ def build(job):
         m = params["m"]
         keys = [eng.var(f"k{i}") for i in range(m)]
         vals = [eng.var(f"v{i}") for i in range(m)]
+        if params.get("chain"):
+            vals = keys[1:] + [vals[-1]]
         eng.assume(distinct(keys))
         # the region of a recorded (still reproducing) known finding is excluded from the claim
         for name, cond in known_regions(recs, keys, vals).items():
